@@ -1,8 +1,25 @@
 (* C06 — Linear / categorical weight constraints.  Property theorems only;
-   proofs live in Proofs/PartialOrder.v, Proofs/TopoSort.v, Proofs/LinearProject.v.
+   proofs live in Proofs/PartialOrder.v, Proofs/TopoSort.v, Proofs/LinearProject.v,
+   Proofs/SqrtRobust.v.
    All statements are about ONE column (unit) of the weight matrix;
-   C06_per_unit / C06_categorical_per_unit lift them to the (dims, units) matrix. *)
+   C06_per_unit / C06_categorical_per_unit lift them to the (dims, units) matrix.
+
+   The square root of the order-2 norm (rt : Q -> Q):
+   - NO hypothesis on rt (any function, any values): C06_linear_defined, C06_signs,
+     C06_monotonic_dominance, C06_range_dominance(_explicit), C06_norm_one_or_zero (order 1),
+     C06_norm_preserves_constraints, C06_linear_feasible_fixed(_l1), C06_per_unit,
+     C06_linear_matrix_defined, and C06_norm_l2_any_root (exact identity
+     ||r||^2 * rt(S)^2 == S);
+   - APPROXIMATE root ((1-e) S <= rt(S)^2 <= (1+e) S, what a floating-point or
+     Newton root guarantees; satisfiable for every S): C06_norm_l2_approximate_root;
+   - the EXECUTED root qsqrt (truncated Newton, the one the correspondence check
+     runs): C06_executed_root_bounds, C06_norm_l2_executed_root,
+     C06_linear_feasible_fixed_l2_executed_root;
+   - IDEALISED exact root (rt(S)^2 == S, satisfiable only when S is a rational
+     square; the e = 0 instance of the approximate theorem):
+     C06_norm_one_or_zero_l2; exact at 1 only: C06_linear_feasible_fixed_l2. *)
 From TFL Require Import Model.LinearProject Proofs.PartialOrder Proofs.TopoSort Proofs.LinearProject.
+From TFL Require Import Proofs.SqrtRobust.
 Open Scope Q_scope.
 
 (* ---------------- shared partial-order projection ---------------- *)
@@ -102,14 +119,19 @@ Theorem C06_norm_one_or_zero : forall rt c n w r,
 Proof. exact lin_norm1. Qed.
 Print Assumptions C06_norm_one_or_zero.
 
-(* order 2: rt is the square-root oracle, assumed exact at the one sum of squares S *)
+(* order 2: rt is the square-root oracle, assumed exact at the one sum of squares S.
+   IDEALISED: over Q the hypothesis rt S * rt S == S can only hold when S is a
+   rational square.  It is the e = 0 instance of C06_norm_l2_approximate_root
+   below (derived from it in Proofs/SqrtRobust.v, lin_norm2_exact_instance);
+   the statements that hold for every S are C06_norm_l2_any_root,
+   C06_norm_l2_approximate_root and C06_norm_l2_executed_root. *)
 Theorem C06_norm_one_or_zero_l2 : forall rt c n w r,
   lin_valid c n -> length w = n -> lc_norm c = 2%nat -> lin_project_col rt c w = Some r ->
   exists w3, lin_project_col rt (with_norm c 0) w = Some w3 /\
     let S := qsum (map (fun x => x * x) w3) in
     (rt S * rt S == S ->
      qsum (map (fun x => x * x) r) == 1 \/ (rt S < norm_eps /\ peq r w3)).
-Proof. exact lin_norm2. Qed.
+Proof. exact lin_norm2_exact_instance. Qed.
 Print Assumptions C06_norm_one_or_zero_l2.
 
 (* any normalization order and any root function: the result is the
@@ -156,3 +178,94 @@ Theorem C06_categorical_per_unit : forall ps lo hi units W R u,
   exists r, cat_project_col ps lo hi (column u W) = Some r /\ column u R = r.
 Proof. exact cat_per_unit. Qed.
 Print Assumptions C06_categorical_per_unit.
+
+(* ---------------- order-2 norm without an exact square root ---------------- *)
+(* sumsq w = sum of squares.  ANY function rt (no hypothesis): either the value
+   rt S is below 1e-8 and the column is returned as it is, or the squared norm
+   of the result times rt(S)^2 is exactly S. *)
+Theorem C06_norm_l2_any_root : forall rt c n w r,
+  lin_valid c n -> length w = n -> lc_norm c = 2%nat -> lin_project_col rt c w = Some r ->
+  exists w3, lin_project_col rt (with_norm c 0) w = Some w3 /\
+    let S := sumsq w3 in
+    (rt S < norm_eps /\ peq r w3) \/ (norm_eps <= rt S /\ sumsq r * (rt S * rt S) == S).
+Proof. exact lin_norm2_any. Qed.
+Print Assumptions C06_norm_l2_any_root.
+
+(* the same identity for a bare column and any non-zero divisor *)
+Theorem C06_norm_l2_identity : forall (d : Q) w, ~ d == 0 ->
+  sumsq (map (fun x => x / d) w) * (d * d) == sumsq w.
+Proof. exact sumsq_div_any. Qed.
+Print Assumptions C06_norm_l2_identity.
+
+(* a root with relative error e in the square (satisfiable for every S, e.g. by
+   the executed root or a float64 sqrt): the squared norm of the result is in
+   [1/(1+e), 1/(1-e)] *)
+Theorem C06_norm_l2_approximate_root : forall rt c n w r,
+  lin_valid c n -> length w = n -> lc_norm c = 2%nat -> lin_project_col rt c w = Some r ->
+  exists w3, lin_project_col rt (with_norm c 0) w = Some w3 /\
+    let S := sumsq w3 in
+    forall e, e < 1 -> (1 - e) * S <= rt S * rt S -> rt S * rt S <= (1 + e) * S ->
+    (rt S < norm_eps /\ peq r w3) \/
+    (norm_eps <= rt S /\ 0 < S /\ 1 <= sumsq r * (1 + e) /\ sumsq r * (1 - e) <= 1).
+Proof. exact lin_norm2_approx. Qed.
+Print Assumptions C06_norm_l2_approximate_root.
+
+(* the executed root qsqrt = 60 Newton steps from 1 + a, each rounded DOWN to a
+   multiple of u80 = 2^-80: for every a it is >= 0 and, when positive, less than
+   u80 below the true root; above 2^-158 it is positive with an explicit error
+   bound; below it is under the 1e-8 guard; on [1e-16, 2^32] the relative error
+   of its square is within [-2^-50, 2^-64].  The one-sided bound a <= qsqrt a ^2
+   is false (at a = 2). *)
+Theorem C06_executed_root_bounds : forall a,
+  0 <= qsqrt a /\
+  (0 < qsqrt a -> a <= (qsqrt a + u80) * (qsqrt a + u80)) /\
+  (4 * (u80 * u80) < a -> u80 < qsqrt a /\
+     qsqrt a * qsqrt a <= a + (1 + a + a * a) * (1 # 2 ^ 120) + (9 # 4) * (u80 * u80)) /\
+  (a <= 4 * (u80 * u80) -> qsqrt a < norm_eps) /\
+  (norm_eps <= qsqrt a -> a <= (1 + (1 # 2 ^ 51)) * (qsqrt a * qsqrt a)) /\
+  (norm_eps * norm_eps <= a -> a <= inject_Z (2 ^ 32) ->
+     0 < qsqrt a /\ (1 - (1 # 2 ^ 50)) * a <= qsqrt a * qsqrt a /\ qsqrt a * qsqrt a <= (1 + (1 # 2 ^ 64)) * a) /\
+  qsqrt 2 * qsqrt 2 < 2.
+Proof. intros a. split; [apply qsqrt_nonneg|]. split; [apply qsqrt_lower|]. split.
+  - intros H. destruct (qsqrt_strong a H) as [A [_ B]]. exact (conj A B).
+  - split; [apply qsqrt_small|]. split; [apply qsqrt_guard_lower|]. split; [apply qsqrt_range|apply qsqrt_two_below]. Qed.
+Print Assumptions C06_executed_root_bounds.
+
+(* the model as it is executed (rt := qsqrt), every column: the identity, squared
+   norm at most 1 + 2^-51 (NOT at most 1: the root is rounded down, Example
+   executed_root_applies), and at least 1 / (1 + 2^-64) when S <= 2^32 *)
+Theorem C06_norm_l2_executed_root : forall c n w r,
+  lin_valid c n -> length w = n -> lc_norm c = 2%nat -> lin_project_col qsqrt c w = Some r ->
+  exists w3, lin_project_col qsqrt (with_norm c 0) w = Some w3 /\
+    let S := sumsq w3 in let q := qsqrt S in
+    (q < norm_eps /\ peq r w3) \/
+    (norm_eps <= q /\ sumsq r * (q * q) == S /\
+     sumsq r <= 1 + (1 # 2 ^ 51) /\
+     (S <= inject_Z (2 ^ 32) -> 1 <= sumsq r * (1 + (1 # 2 ^ 64)))).
+Proof. exact lin_norm2_executed. Qed.
+Print Assumptions C06_norm_l2_executed_root.
+
+(* C06_linear_feasible_fixed_l2 with its hypothesis on rt discharged for the executed root *)
+Theorem C06_linear_feasible_fixed_l2_executed_root : forall c n w r,
+  lin_valid c n -> length w = n -> lc_norm c = 2%nat ->
+  lin_feasible c w -> qsum (map (fun x => x * x) w) == 1 -> lin_project_col qsqrt c w = Some r -> peq r w.
+Proof. exact lin_fixed_norm2_executed. Qed.
+Print Assumptions C06_linear_feasible_fixed_l2_executed_root.
+
+(* the hypotheses are satisfiable on a NON-square sum of squares (column (1, 1),
+   S = 2): an explicit rational root 99/70 with e = 1/9800, and the executed root *)
+Example C06_any_root_example : exists r,
+  lin_valid rt2_cfg 2 /\ length [1; 1] = 2%nat /\ lc_norm rt2_cfg = 2%nat /\
+  lin_project_col rt_99_70 rt2_cfg [1; 1] = Some r /\
+  lin_project_col rt_99_70 (with_norm rt2_cfg 0) [1; 1] = Some [1; 1] /\
+  sumsq [1; 1] == 2 /\ norm_eps <= rt_99_70 2 /\
+  (1 # 9800) < 1 /\ (1 - (1 # 9800)) * 2 <= rt_99_70 2 * rt_99_70 2 /\ rt_99_70 2 * rt_99_70 2 <= (1 + (1 # 9800)) * 2 /\
+  ~ rt_99_70 2 * rt_99_70 2 == 2 /\
+  sumsq r * (rt_99_70 2 * rt_99_70 2) == 2 /\ 1 <= sumsq r * (1 + (1 # 9800)) /\ sumsq r * (1 - (1 # 9800)) <= 1.
+Proof. exact any_root_applies. Qed.
+Example C06_executed_root_example : exists r,
+  lin_project_col qsqrt rt2_cfg [1; 1] = Some r /\
+  lin_project_col qsqrt (with_norm rt2_cfg 0) [1; 1] = Some [1; 1] /\
+  norm_eps <= qsqrt 2 /\ 2 <= inject_Z (2 ^ 32) /\ norm_eps * norm_eps <= 2 /\
+  1 < sumsq r /\ sumsq r <= 1 + (1 # 2 ^ 51) /\ sumsq r * (qsqrt 2 * qsqrt 2) == 2.
+Proof. exact executed_root_applies. Qed.
